@@ -27,7 +27,9 @@ def plan(tier, seed):
     for i in range(n):
         shards.append({"env": {"NUMBA_BOUNDSCHECK": "1" if i % 2 else "0"},
                        "params": {"time_budget": 60 if tier == "quick" else 600}})
-    return {"shards": shards, "timeout": 420 if tier == "quick" else 2400}
+    if tier == "thorough":   # the repository's own suite as extra workload for M-PART / M-COVER
+        shards.append({"env": {}, "params": {"suite": "part,prog"}})
+    return {"shards": shards, "timeout": 420 if tier == "quick" else 3000}
 
 
 _state = {}
@@ -91,6 +93,10 @@ def check_case(ctx, case):
 
 def run(ctx):
     _setup(ctx)
+    if ctx.params.get("suite"):
+        from ..suite import run_suite_under_monitors
+        run_suite_under_monitors(ctx, ctx.params["suite"])
+        return
     n_pool = ctx.scale(12, 30)
     dspecs = cases.gen_pool_specs(ctx.rng, n_pool)
     # make sure the label-free classes (the only ones that accept unlabelled units) are always in the pool
